@@ -2803,7 +2803,9 @@ func (s *Server) serveConnCounted(c net.Conn, countConcurrency bool) error {
 		}
 		releaseWriter(s, bw)
 	}
-	if hijackHandler == nil {
+	if err != errHijacked {
+		// Also when a hijack was requested but the response could not be
+		// written: hijackConnHandler, which releases ctx, was never started.
 		s.releaseCtx(ctx)
 	}
 
